@@ -22,7 +22,7 @@ import (
 // entry points that parse CAR data; each returns a result class for the ones that have a model
 // ("r=…") or an informational class ("_r=…").
 var c09Entries = []string{"next-seek", "next-plain", "skip-seek", "skip-plain", "inspect-full", "inspect-quick",
-	"genindex-seek", "genindex-plain", "readorgen", "indexread", "readonly", "readable", "replaceroots", "extract", "root"}
+	"genindex-seek", "genindex-plain", "readorgen", "indexread", "readonly", "readable", "replaceroots", "extract", "root", "skip-dr", "next-dr"}
 
 // guarded runs f, catching panics, timing it and measuring the bytes it allocates.
 func guarded(f func() string) (res string, panicked bool, alloc uint64, dur time.Duration) {
@@ -63,6 +63,33 @@ func runEntry(ep string, ro readOpts, in []byte, seq int) string {
 			all = append(all, 's')
 		}
 		return runChoices(src, ro, string(all))
+	case "skip-dr", "next-dr":
+		// compositions of public entry points: the payload reader handed out by Reader.DataReader,
+		// walked with SkipNext / Next (not modelled: totality and bounds only)
+		rd, err := carv2.NewReader(bytes.NewReader(in), opts...)
+		if err != nil {
+			return "_r=" + classifyIdx(err)
+		}
+		dr, err := rd.DataReader()
+		if err != nil {
+			return "_r=" + classifyIdx(err)
+		}
+		br, err := carv2.NewBlockReader(dr, opts...)
+		if err != nil {
+			return "_r=" + classifyIdx(err)
+		}
+		n := 0
+		for ; n < 4000; n++ {
+			if ep == "skip-dr" {
+				_, err = br.SkipNext()
+			} else {
+				_, err = br.Next()
+			}
+			if err != nil {
+				break
+			}
+		}
+		return fmt.Sprintf("_r=%s _n=%d", classifyIdx(err), n)
 	case "inspect-full":
 		return runInspect(in, ro, true)
 	case "inspect-quick":
